@@ -217,6 +217,17 @@ CurRev == Trace[l].rev
 P_C09_CreateFresh ==
   (IsCall /\ lab.kind = "store" /\ lab.verb = "create" /\ lab.ok) =>
      (CurRev \in MonRev /\ B.store[CurRev].st = "none" /\ S.store[CurRev].st # "none")
+\* while an operation that created a revision is still running, nobody else gets to create one: the others fail
+\* with already-exists / operation-in-progress (instead of becoming a second winner next to it)
+\* (an operation HOLDS the release while a revision it created is still pending)
+Holds(q) == sum[q].active /\ \E r \in sum[q].crs : r \in MonRev /\ B.store[r].st \in {"pending-install", "pending-upgrade", "pending-rollback"}
+P_C09_OneAtATime ==
+  (IsCall /\ lab.kind = "store" /\ lab.verb = "create" /\ lab.ok) =>
+     \A q \in MonProc \ {CurProc} : ~Holds(q)
+\* ... and nobody rewrites or deletes the record of a revision that a still running operation created
+P_C09_HandsOff ==
+  (IsCall /\ lab.kind = "store" /\ lab.verb \in {"update", "delete"} /\ lab.ok) =>
+     \A q \in MonProc \ {CurProc} : ~(sum[q].active /\ CurRev \in sum[q].crs)
 \* each revision number is created by exactly one of the overlapping operations
 P_C09_UniqueCreator == \A r \in MonRev : Cardinality(creators[r]) <= 1
 P_C09_LoserClean ==
@@ -264,6 +275,8 @@ Checks == <<
   [n |-> "C12_Disabled",      v |-> P_C12_Disabled],
   [n |-> "C09_CreateFresh",   v |-> P_C09_CreateFresh],
   [n |-> "C09_UniqueCreator", v |-> P_C09_UniqueCreator],
+  [n |-> "C09_OneAtATime",    v |-> P_C09_OneAtATime],
+  [n |-> "C09_HandsOff",      v |-> P_C09_HandsOff],
   [n |-> "C09_LoserClean",    v |-> P_C09_LoserClean],
   [n |-> "C09_Quiescent",     v |-> P_C09_Quiescent] >>
 
